@@ -138,6 +138,32 @@ pub fn run_sched(sc: &Value) -> Value {
             out
         }));
     }
+    // watchdog: a command that never returns (livelock) must not hang the driver
+    let deadline = std::time::Instant::now() + Duration::from_millis(sc["watchdog_ms"].as_u64().unwrap_or(4000));
+    let mut hung = vec![];
+    loop {
+        if handles.iter().all(|h| h.is_finished()) {
+            break;
+        }
+        if std::time::Instant::now() > deadline {
+            for (i, h) in handles.iter().enumerate() {
+                if !h.is_finished() {
+                    hung.push(i);
+                }
+            }
+            break;
+        }
+        std::thread::sleep(Duration::from_millis(10));
+    }
+    if !hung.is_empty() {
+        let (m, _) = &*state;
+        let s = m.lock().unwrap();
+        let v = json!({"hung": hung, "threads": [], "probe": [], "schedule_mismatch": s.mismatch, "stuck": s.stuck,
+            "steps_done": s.turn, "steps_planned": s.order.len()});
+        // spinning threads cannot be joined: print what we have and leave the process
+        println!("{}", serde_json::to_string(&Value::Array(vec![v])).unwrap());
+        std::process::exit(0);
+    }
     let mut results = vec![];
     for h in handles {
         match h.join() {
